@@ -10,7 +10,7 @@ VALUES = {
                   b'437', b'1252', b'8859', b'646', b'936', b'0', b'-1'],
     b'line_endings': [b'mac', b'DOS', b'1', b'unix', b'dos', b'x'],
     b'format': [b'yaml', b'JSON', b'1', b'xml'],
-    b'version': [b'2.0', b'1', b'1.0.0', b'x', b'10'],
+    b'version': [b'2.0', b'1', b'1.0.0', b'x', b'10', b'1.00', b'01.0', b'1.0_0', b'1.-0', b'1.', b'1.0e0', b'1.0/', b'v1.0'],
     b'type': [b'x', b'1', b'binary', b'text'],
     b'mimetype': [b'x', b'text/html', b'1'],
 }
